@@ -862,7 +862,7 @@ class World:
         self.trace.append({'ev': 'ret', 'call': 'stop', 'out': 'crash', 'must': False, 'faults': 0,
                            'target': self.target_class(), 'cur': 'none', 'skip': False})
 
-    def change(self, p, value, plan=None, via=None, fail=False):
+    def change(self, p, value, plan=None, via=None, fail=False, refused=False):
         """via: 'set' (driver assigns), 'write' (client change), 'read' (read back from the hardware)"""
         m = self.m
         via = via or ('write' if p in self.haswrite else 'set')
@@ -876,7 +876,7 @@ class World:
                 getattr(m, 'read_' + p)()
         else:
             fn = lambda: setattr(m, p, value)
-        out = self.call(fn, plan, 'change', p in self.auto and not fail)
+        out = self.call(fn, plan, 'change', p in self.auto and not fail and not refused)
         self.fail.pop(p, None)
         return out
 
@@ -1223,6 +1223,12 @@ KINDS = ['null', 'true', 'false', '0', '3', '-1', '1.5', '1e400', 'NaN', '-Infin
          '{"a": 1}', '[[]]', '"3"', '12345678901234567890']
 
 
+def _dtypes(names):
+    """'limit' when only PersistentLimit parameters are concerned, else the datatype names"""
+    names = sorted(set(names))
+    return 'limit' if names and all(t in LIMIT_POSTFIX for t in names) else '+'.join(names)
+
+
 def start_signature(boot, start, types):
     """signature of a start-up that the specification did not accept (classification only)"""
     d = boot.get('descr', {})
@@ -1254,6 +1260,9 @@ def start_signature(boot, start, types):
             sig.update(cause='missing_entry', effect='default_not_applied')
         else:
             sig.update(clause='RoundTrip', cause='good_entry', effect='stored_value_not_restored', dtype=types.get(p, '?'))
+            if types.get(p) in LIMIT_POSTFIX:
+                sig = {'module': 'Persistent', 'clause': 'RoundTrip', 'cause': 'value_not_stored', 'dtypes': 'limit',
+                       'effect': 'not_restored'}
         return sig
     for p in sorted(start.get('err', {})):
         if start['err'][p] and (boot['file'][p] not in ('-', 'bad') or start['cfg'][p] != '-'):
@@ -1283,7 +1292,7 @@ def trace_signature(trace, l, clause, types):
                    target='object_not_standing_for_current_values' if ev['target'].startswith('c:') else ev['target'])
         if ev.get('notstored'):
             sig = {'module': 'Persistent', 'clause': 'RoundTrip', 'cause': 'value_not_stored',
-                   'dtypes': '+'.join(ev['notstored'])}
+                   'dtypes': _dtypes(ev['notstored'])}
     if ev.get('ev') == 'ret':
         sig.update(call=ev['call'], out=ev['out'], faulted=ev['faults'] > 0)
     if ev.get('ev') == 'reload' and clause == 'Foreign':
@@ -1386,7 +1395,10 @@ def random_history(arg):
         if w.m.writeDict:
             # the poller writes the registered values before anything else happens (a save may come first)
             if r < 0.8:
+                if r < 0.1:     # the hardware refuses one of the registered values
+                    w.fail[rnd.choice(sorted(w.m.writeDict))] = 'write'
                 w.write_init(_rand_plan(rnd, pfault=0.2))
+                w.fail.clear()
             else:
                 w.save(_rand_plan(rnd))
         elif r < 0.05:
@@ -1400,7 +1412,11 @@ def random_history(arg):
         elif r < 0.62:
             p = rnd.choice(w.pnames)
             via = rnd.choice(['set', 'read'] + (['write'] if p in w.haswrite else []))
-            w.change(p, rnd.choice(w.values[p]), _rand_plan(rnd), via=via, fail=rnd.random() < 0.08)
+            if rnd.random() < 0.05:
+                # a value the datatype refuses: nothing changes (the parameter may go into error state)
+                w.change(p, rnd.choice([None, 'no value', [[[]]], {'?': 1}, 1e99]), None, via=via, refused=True)
+            else:
+                w.change(p, rnd.choice(w.values[p]), _rand_plan(rnd), via=via, fail=rnd.random() < 0.08)
         elif r < 0.9:
             w.save(_rand_plan(rnd))
         else:
@@ -1650,7 +1666,7 @@ def _gen_pass(chk, name, cfg, nchunks, shapes_per, want_traces, tracebag, strict
                       'plans': x['plans'], 'failed': {k: v for k, v in bad.items() if k != 'obs'}}
             if bad.get('notstored') and bad.get('dev_matched') != bad.get('dev_n', -1):
                 chk.violation({'module': 'Persistent', 'clause': 'RoundTrip', 'cause': 'value_not_stored',
-                               'dtypes': '+'.join(bad['notstored'])}, detail)
+                               'dtypes': _dtypes(bad['notstored'])}, detail)
                 continue
             if x.get('start_events'):
                 sig = start_signature(x['start_events'][0], x['start_events'][1], x['types'])
